@@ -265,12 +265,16 @@ theorem need_minimal_flatten {τ : Type v} (D : τ → List α) (cs : List τ) (
     (cs.flatMap D)[k]? = some b ∧ 0 < c ∧ Undetermined (fun cs => cs.flatMap D) cs (c - 1) k b :=
   need_minimal_flatten' D cs k b c h
 
+example : ((annot 0 [[1, 2], [], [3]]).flatMap fun q => (id q.1).map fun a => (a, q.2))[2]? = some (3, 3) := by decide
+
 /-- **`need_minimal_join`**: the `k`-th answer (0-based) of `Join` costs `k + 1` pulls in total
 (`join_pulls`); arguments holding only the first `k` items leave it undetermined. -/
 theorem need_minimal_join (ls : List (List α)) (k : Nat) (b : α) (c : Nat)
     (h : (annot 0 ls.flatten)[k]? = some (b, c)) :
     ls.flatten[k]? = some b ∧ c = k + 1 ∧ ∀ ls' : List (List α), ls'.flatten = ls.flatten.take (c - 1) →
       ls'.flatten[k]? ≠ some b := need_minimal_join' ls k b c h
+
+example : (annot 0 [[1, 2], [], [3]].flatten)[2]? = some (3, 3) := by decide
 
 /-- **`need_minimal_runs`** (reflexive `same`, inner iterators read to their end): the `k`-th run is
 delivered at cost `c` (`runs_pulls`: one item of lookahead, or the end of the source); `c - 1` source
